@@ -6,6 +6,7 @@ import (
 	"fmt"
 	"github.com/gr33nbl00d/caddy-revocation-validator/core"
 	"github.com/gr33nbl00d/caddy-revocation-validator/core/hashing"
+	"github.com/gr33nbl00d/caddy-revocation-validator/core/verifhook"
 	"github.com/gr33nbl00d/caddy-revocation-validator/crl/crlreader"
 	"go.uber.org/zap"
 	"math/big"
@@ -139,10 +140,13 @@ func (S *MapStore) Update(store CRLStore) error {
 		return errors.New("invalid update store type")
 	}
 	// Copy the map from storeNew to S
+	verifhook.Hit("map.update.start")
 	S.Map = make(map[string][]byte)
+	verifhook.Hit("map.update.cleared")
 	for k, v := range storeNew.Map {
 		S.Map[k] = v
 	}
+	verifhook.Hit("map.update.copied")
 	storeNew.close()
 	return nil
 }
